@@ -200,6 +200,10 @@ def r06_2(ctx):
 
 @rule("R06.5", "C06", "?: guard table: a statement-expression arm runs only when selected (then-arm: BRANCH(c, stmt, EMPTY); else-arm: BRANCH(c, EMPTY, stmt))", min_instances=4)
 def r06_5(ctx):
+    ternary_guard_checks(ctx)
+
+
+def ternary_guard_checks(ctx):
     idx = get_index(ctx.env)
     gm = get_grammar(ctx.env)
     alt = [a for a in gm.rules["conditional_expr"] if len(a.symbols) > 1]
@@ -378,3 +382,41 @@ def r06_4(ctx):
         obs = sorted({"raises" if o.kind == "raise" else "translates" for o in outs})
         exp = ["raises"] if pending else ["translates"]
         ctx.check(f"for loop whose condition {'has a' if pending else 'has no'} pending side effect", obs == exp, str(exp), str(obs), fn_where(idx, fi))
+
+
+@rule("R06.8", "C06", "one operation per evaluation: every translating path of a value-producing callback builds its own hybrid node and resolves that one, whatever the transformer has seen before", min_instances=5)
+def r06_8(ctx):
+    idx = get_index(ctx.env)
+    vt32 = lambda n: mk_vt(n, True, 32)
+
+    def routine_over(r):
+        def over():
+            s = AObj("SubRoutine", {}, label="routine", opaque=True)
+            r.stubs[("routine", "get_parameter_value_types")] = "PARAM_TYPES"
+            r.stubs[("routine", "get_name")] = "clz32"
+            return {"sub_routines": {"clz32": s}}
+        return over
+
+    cases = [
+        ("postfix_expr[++]", "postfix_expr", lambda r: [r.pure("items[0]", vt=vt32("t0"), cls="LocalVar"), Tok("INC_OP", "++")], "PostfixIncDec", None),
+        ("postfix_expr[--]", "postfix_expr", lambda r: [r.pure("items[0]", vt=vt32("t0"), cls="LocalVar"), Tok("DEC_OP", "--")], "PostfixIncDec", None),
+        ("sub_routine[registered routine]", "sub_routine", lambda r: ["clz32", r.pure("items[1]", vt=vt32("t1"))], "SubRoutineCall", routine_over),
+        ("sub_routine[unregistered -> c_call]", "sub_routine", lambda r: ["some_helper", r.pure("items[1]", vt=vt32("t1"))], "Call", routine_over),
+        ("c_call", "c_call", lambda r: ["some_helper", r.pure("items[1]", vt=vt32("t1"))], "Call", None),
+        ("gcc_extended_expr[stmt; value]", "gcc_extended_expr", lambda r: [eff(r, "items[0]"), r.pure("items[1]", vt=vt32("t1"))], "GCCStmtDeclExpr", None),
+    ]
+    for key, cb, mk, cls, over in cases:
+        r = Runner(idx)
+        if cb in ("sub_routine", "c_call"):
+            r.summarised = r.summarised | {"cast_sub_routine_args"}
+            r.s_cast_sub_routine_args = lambda interp, args, kwargs: args[1]
+        fi, outs = r.run(cb, lambda: mk(r), self_over=over(r) if over else None)
+        good = [o for o in outs if o.kind != "raise"]
+        ctx.need(good, f"{key}: no translating path")
+        for o in good:
+            created = [e[2] for e in o.events if e[0] == "node" and e[1] == cls]
+            v = o.value
+            h = v.fields.get("hybrid") if isinstance(v, AObj) else None
+            ok = len(created) == 1 and h is created[0]
+            ctx.check(f"{key} resolves a hybrid built by this evaluation", ok, f"Hyb(new {cls})",
+                      f"{lab(v)[:70]} (nodes built on this path: {[lab(c)[:40] for c in created]}; decisions: {[d for d in o.decisions][:4]})", fn_where(idx, fi))
